@@ -331,6 +331,15 @@ CONSTRAINT_KEYS = ("ge", "gt", "le", "lt", "min_length", "max_length", "min_item
                    "allow_inf_nan", "max_digits", "decimal_places", "frozen", "alias", "validation_alias", "serialization_alias", "exclude")
 
 
+def _shape_json(t):
+    """a field shape with classes named by their bare name (a class that moves to another module is the same class)"""
+    if isinstance(t, tuple):
+        if len(t) == 2 and t[0] == "cls" and isinstance(t[1], str):
+            return ["cls", t[1].split(":")[-1]]
+        return [_shape_json(c) for c in t]
+    return t
+
+
 def _term_json(t):
     if isinstance(t, tuple):
         return [_term_json(c) for c in t]
@@ -366,15 +375,26 @@ def func_decl(index, module, node, cls):
     return {"pos": pos, "kwonly": kwonly, "defaults": defaults, "vararg": bool(a.vararg), "kwarg": bool(a.kwarg)}
 
 
-def _const_of(node):
+def _const_of(node, index=None, module=None, _depth=0):
     try:
         return _term_json(ast.literal_eval(node))
     except Exception:  # noqa: BLE001
-        return ["text", ast.unparse(node)]
+        pass
+    # a module-level named constant stands for its value (`DEFAULT_TIME_EXPANSION = 1.0`)
+    if index is not None and module is not None and isinstance(node, (ast.Name, ast.Attribute)) and _depth < 4:
+        try:
+            sy = index.resolve_expr(module, node)
+        except Exception:  # noqa: BLE001
+            sy = None
+        if sy is not None and sy.kind == "assign" and sy.module is not None:
+            d = [x for x in sy.module.defs.get(sy.qual.split(":")[1], []) if isinstance(x, (ast.Assign, ast.AnnAssign)) and x.value is not None]
+            if len(d) == 1:
+                return _const_of(d[0].value, index, sy.module, _depth + 1)
+    return ["text", ast.unparse(node)]
 
 
 def model_decl(index, models, ci):
-    cfg = {k: _const_of(v) for k, v in models.model_config(ci).items()}
+    cfg = {k: _const_of(v, index, ci.module) for k, v in models.model_config(ci).items()}
     cfg = {k: v for k, v in cfg.items() if PYDANTIC_CONFIG_DEFAULTS.get(k, object()) != v and not (isinstance(v, list) and tuple(v) == PYDANTIC_CONFIG_DEFAULTS.get(k))}
     fields = {}
     for f in models.fields(ci):
@@ -397,9 +417,9 @@ def model_decl(index, models, ci):
         for x in ast.walk(ann):
             if isinstance(x, ast.Subscript) and ast.unparse(x.value).split(".")[-1] == "Annotated" and isinstance(x.slice, ast.Tuple):
                 meta += [ast.unparse(y) for y in x.slice.elts[1:]]
-        fields[f.name] = {"shape": _term_json(f.shape), "meta": meta,
-                          "constraints": {k: _const_of(v) for k, v in f.field_kwargs.items() if k in CONSTRAINT_KEYS},
-                          "default": None if f.default is None else _const_of(f.default),
+        fields[f.name] = {"shape": _shape_json(f.shape), "meta": meta,
+                          "constraints": {k: _const_of(v, index, f.owner.module) for k, v in f.field_kwargs.items() if k in CONSTRAINT_KEYS},
+                          "default": None if f.default is None else _const_of(f.default, index, f.owner.module),
                           "factory": None if f.default_factory is None else ast.unparse(f.default_factory)}
     protocol = sorted(n for n in ci.methods if n in PROTOCOL_METHODS)
     return {"config": cfg, "fields": fields, "protocol": protocol}
@@ -574,8 +594,13 @@ def check_declarations(ctx: Ctx, files: List[str]):
             if models.is_model(ci):
                 classes[ci.qual] = ci
     classes.update(extra_classes)
+    by_name = {}
+    for q_ in ref["models"]:
+        by_name.setdefault(q_.split(":")[-1], []).append(q_)
     for q, ci in sorted(classes.items()):
         r = ref["models"].get(q)
+        if r is None and len(by_name.get(ci.name, [])) == 1 and by_name[ci.name][0] not in classes:
+            r = ref["models"][by_name[ci.name][0]]  # the class moved to another module
         if r is None:
             continue
         n_m += 1
